@@ -39,12 +39,7 @@ def run(ctx):
                 regs.append(r)
         # shapes the DNF simplifier is sensitive to: complementary-looking comparisons on DIFFERENT keys with the same literal, on the same key
         # with different literals, of different kinds; gaps that look like `!= X.Y.*` but are not; a marker and a near-negation of a part of it
-        for t in ("sys_platform == 'linux' or platform_system != 'linux'", "(os_name == 'posix' and extra == 'a') or sys_platform != 'posix'",
-                  "platform_system == 'Windows' or (os_name != 'Windows' and sys_platform == 'win32')", "python_full_version == '3.8' or implementation_version != '3.8'",
-                  "os_name in 'ab' or sys_platform not in 'ab'", "'x' in os_name or 'x' not in sys_platform", "os_name == 'a' or os_name != 'b'", "os_name < 'a' or sys_platform >= 'a'",
-                  "python_full_version < '3.8.2' or python_full_version >= '3.9'", "implementation_version < '7.3.11' or implementation_version >= '7.4'",
-                  "python_full_version < '3.8' or python_full_version >= '3.9.1'", "(os_name == 'a' and sys_platform == 'b') or (os_name != 'a' and sys_platform != 'b')",
-                  "extra == 'a' or (extra != 'b' and os_name == 'x')", "(extra == 'a' and os_name == 'x') or extra != 'a'", "python_version >= '3.8' and python_version < '3.12' and python_version != '3.9'"):
+        for t in markers.DNF_SHAPES:
             r, _ = sess.parse(t)
             if r is not None:
                 regs.append(r)
